@@ -13,6 +13,42 @@ impl MmapH {
 }
 #[verifier::external_body] pub struct DatabaseW { _p: core::marker::PhantomData<u8> }
 impl DatabaseW {
-    pub uninterp spec fn file_len(&self) -> usize;     // the mapping covers the data file
-    #[verifier::external_body] pub fn mmap(&self) -> (g: MmapH) ensures g.mlen() == self.file_len() { unimplemented!() }
+    pub uninterp spec fn flen(&self) -> usize;     // the mapping covers the data file
+    #[verifier::external_body] pub fn mmap(&self) -> (g: MmapH) ensures g.mlen() == self.flen() { unimplemented!() }
 }
+
+// ---- Database::set_min_len: the data file, the cached length and the mapping as a ghost world ----
+pub tracked struct GW {
+    pub ghost file_len: nat,          // real length of the data file
+    pub ghost cached: nat,            // cached_file_len
+    pub ghost mapped: nat,            // length of the current mapping
+    pub ghost set_lens: nat,          // file.set_len calls so far
+}
+pub open spec fn ceil_page(n: int) -> int { ((n + 4095) / 4096) * 4096 }
+#[verifier::external_body] pub struct FileG { _p: core::marker::PhantomData<u8> }
+#[verifier::external_body] pub struct MmapG { _p: core::marker::PhantomData<u8> }
+impl DatabaseW {
+    // cached_file_len.load(Relaxed)
+    #[verifier::external_body] pub fn file_len(&self, Tracked(w): Tracked<&mut GW>) -> (r: usize) ensures *final(w) == *old(w), r == old(w).cached { unimplemented!() }
+    #[verifier::external_body] pub fn mmap_mut(&self) -> MmapG { unimplemented!() }
+    #[verifier::external_body] pub fn file_mut(&self) -> FileG { unimplemented!() }
+    // self.0.cached_file_len.store(v, Relaxed)
+    #[verifier::external_body] pub fn store_cached_file_len(&self, v: usize, Tracked(w): Tracked<&mut GW>) ensures *final(w) == (GW { cached: v as nat, ..*old(w) }) { unimplemented!() }
+    // Database::ceil_number_to_page_size_multiple, the contract proved in U9
+    #[verifier::external_body]
+    pub fn ceil_number_to_page_size_multiple(num: usize) -> (r: usize) requires num <= usize::MAX - 4095 ensures r == ceil_page(num as int), r >= num, r % 4096 == 0, r < num + 4096 { unimplemented!() }
+}
+impl FileG {
+    // File::set_len: C02 / C12: the data file is never shortened
+    #[verifier::external_body]
+    pub fn set_len(&self, len: u64, Tracked(w): Tracked<&mut GW>) -> (r: std::result::Result<(), IoErr>)
+        requires len >= old(w).file_len
+        ensures r is Ok ==> *final(w) == (GW { file_len: len as nat, set_lens: old(w).set_lens + 1, ..*old(w) }), r is Err ==> *final(w) == *old(w)
+    { unimplemented!() }
+}
+// create_mmap(&file): maps the whole file
+#[verifier::external_body]
+pub fn create_mmap(file: &FileG, Tracked(w): Tracked<&mut GW>) -> (r: std::result::Result<MmapG, IoErr>)
+    ensures r is Ok ==> *final(w) == (GW { mapped: old(w).file_len, ..*old(w) }), r is Err ==> *final(w) == *old(w)
+{ unimplemented!() }
+impl From<IoErr> for Error { #[verifier::external_body] fn from(e: IoErr) -> (r: Error) { unimplemented!() } }
